@@ -31,3 +31,12 @@ Theorem C10_first_run_sets_done : forall W beh_fn beh_wrap b s, ss_ok W s = true
   (bd_init b = None -> ss_done W (fst (run_step W beh_fn beh_wrap b s DoInvoke)) = true).
 Proof. exact first_run_sets_done. Qed.
 Print Assumptions C10_first_run_sets_done.
+
+(* Racing first invocations never block each other for good: in every reachable state either every
+   caller has returned or some caller can take a step (sync.Once / the Singleton's cache as the
+   one-key instance of the cacher). *)
+Theorem C10_once_never_deadlocks : forall nthreads sched,
+  let s := run mstate mstep sched (minit (repeat 0 nthreads)) in
+  (forall t th, nth_opt t (ms_threads s) = Some th -> m_pc th = 3) \/ exists t s', mstep t s = Some s'.
+Proof. intros nthreads sched. exact (memo_no_deadlock (repeat 0 nthreads) sched). Qed.
+Print Assumptions C10_once_never_deadlocks.
